@@ -25,15 +25,19 @@ def _save(V, st, n, label='a label with spaces', dt_range=('1/10000', '100')):
 
 
 @unit('C16', 'save-then-load', functions=[LD + 'save_values_and_dt', LD + 'save_signal', LD + 'load_values_and_dt', LD + 'load_signal', LD + 'load_sig', LD + 'load_asig'],
-      cases=[dict(entry=e, saver=s) for e in ('load_values_and_dt', 'load_signal/signal', 'load_signal/acc_sig', 'load_sig', 'load_sig/m', 'load_asig', 'load_asig/label', 'load_asig/m')
-             for s in ('save_values_and_dt',)] + [dict(entry='load_asig/label', saver='save_signal')],
+      cases=[dict(entry=e, saver=s, label='words') for e in ('load_values_and_dt', 'load_signal/signal', 'load_signal/acc_sig', 'load_sig', 'load_sig/m', 'load_asig', 'load_asig/m')
+             for s in ('save_values_and_dt',)] +
+            [dict(entry='load_asig/label', saver=s, label=l) for s in ('save_values_and_dt', 'save_signal') for l in ('words', 'blank-edges', 'empty', 'any-text')],
       modes=('bounded',), sizes=dict(n=[1, 2, 3]), budget_ms=30000)
-def save_load(V, entry, saver):
+def save_load(V, entry, saver, label):
+    """label='any-text': an ARBITRARY one-line label (text domain piece Txt: no line-boundary characters, otherwise unconstrained)"""
     st = {}
+    LABELS = {'words': 'a label with spaces', 'blank-edges': '  station 12 ', 'empty': ''}
 
     def setup():
+        from pyvc import text as TX
         n = V.size('n', 1)
-        _save(V, st, n)
+        _save(V, st, n, label=LABELS[label] if label in LABELS else TX.SymStr([TX.Txt('label')]))
         return ((), {})
 
     def op(itp, *a):
@@ -58,7 +62,7 @@ def save_load(V, entry, saver):
             kw['m'] = m
         return itp.call(itp.get_function(LD + 'load_asig'), [PATH], kw)
     for out in V.run(op, setup):
-        out.replay_info = dict(module='loader', entry=entry)
+        out.replay_info = dict(module='loader', entry=entry, saver=saver, label=LABELS.get(label))
         if not out.no_raise():
             continue
         x, dt, n, label, m = st['x'], st['dt'], st['n'], st['label'], st['m']
